@@ -236,7 +236,7 @@ Section Conf.
     destruct (step_thread i c) as [c'|] eqn:E; [apply IH; eapply step_preserves; eauto | apply IH; exact I].
   Qed.
 
-  Hypothesis Hconf : forall i, confined disc i (progs i) = true.
+  Hypothesis Hconf : forall i, confined disc W i (progs i) = true.
 
   Lemma inv_init : inv (init st0 progs).
   Proof.
@@ -244,10 +244,10 @@ Section Conf.
     apply Hconf.
   Qed.
 
-  (* under EVERY interleaving, what a call has observed so far is what it observes alone after the same steps *)
+  (* under EVERY interleaving, what a call has observed of the watched globals so far is what it observes alone after the same steps *)
   Theorem confined_prefix :
     forall sched i, let c := run sched (init st0 progs) in
-    t_obs (c_thr c i) = v_obs (view_of st0 (t_done (c_thr c i))) /\ t_done (c_thr c i) ++ t_todo (c_thr c i) = progs i.
+    wobs W (t_obs (c_thr c i)) = wobs W (v_obs (view_of st0 (t_done (c_thr c i)))) /\ t_done (c_thr c i) ++ t_todo (c_thr c i) = progs i.
   Proof.
     intros sched i c. pose proof (run_preserves sched _ inv_init) as I. fold c in I.
     split; [apply (inv_obs c I) | apply (inv_split c I)].
@@ -256,7 +256,7 @@ Section Conf.
   (* ... hence a completed call has exactly its solo result *)
   Theorem confined_serializable_st :
     forall sched i, let c := run sched (init st0 progs) in
-    t_todo (c_thr c i) = [] -> t_obs (c_thr c i) = solo_result st0 (progs i).
+    t_todo (c_thr c i) = [] -> wobs W (t_obs (c_thr c i)) = wobs W (solo_result st0 (progs i)).
   Proof.
     intros sched i c Hdone. destruct (confined_prefix sched i) as [Ho Hs]. fold c in Ho, Hs.
     rewrite Hdone, app_nil_r in Hs. rewrite Ho, Hs. reflexivity.
@@ -265,49 +265,78 @@ End Conf.
 
 (* the solo result of a confined call does not depend on the store it starts from (nor, therefore, on what earlier calls
    left behind) *)
-Lemma solo_indep_gen disc i : forall p a v v',
-  (forall g, In g (a_fresh a) -> v_store v g = v_store v' g) -> v_obs v = v_obs v' ->
-  ok_from disc i a p = true ->
-  v_obs (fold_left view_step p v) = v_obs (fold_left view_step p v').
+Lemma solo_indep_gen disc W i : forall p a v v',
+  Forall (write_ok W) p ->
+  (forall g, W g = true -> In g (a_fresh a) -> v_store v g = v_store v' g) -> wobs W (v_obs v) = wobs W (v_obs v') ->
+  ok_from disc W i a p = true ->
+  wobs W (v_obs (fold_left view_step p v)) = wobs W (v_obs (fold_left view_step p v')).
 Proof.
-  induction p as [|s r IH]; intros a v v' Hf Ho Hok; simpl; [exact Ho|].
+  induction p as [|s r IH]; intros a v v' Hw Hf Ho Hok; simpl; [exact Ho|].
   simpl in Hok. apply andb_true_iff in Hok. destruct Hok as [Hhd Hr].
-  apply (IH (ast_step disc a s)); [| |exact Hr].
-  - destruct s as [g f|g| |l|l]; simpl; intros g0 Hg; try (apply Hf; exact Hg).
-    + rewrite Ho. unfold upd. destruct (Nat.eqb g0 g) eqn:E; [reflexivity|].
-      destruct Hg as [<-|Hg]; [rewrite Nat.eqb_refl in E; discriminate | apply Hf; exact Hg].
-    + apply filter_In in Hg. apply Hf. exact (proj1 Hg).
+  inversion Hw as [|s' r' Hs Hwr]; subst.
+  apply (IH (ast_step disc a s)); [exact Hwr| | |exact Hr].
+  - destruct s as [g f|g| |l|l]; simpl; intros g0 Wg Hg; try (apply Hf; assumption).
+    + unfold upd. destruct (Nat.eqb g0 g) eqn:E.
+      * apply Nat.eqb_eq in E. subst g0. simpl in Hs. apply (Hs Wg). exact Ho.
+      * destruct Hg as [<-|Hg]; [rewrite Nat.eqb_refl in E; discriminate | apply Hf; assumption].
+    + apply filter_In in Hg. apply Hf; [exact Wg | exact (proj1 Hg)].
   - destruct s as [g f|g| |l|l]; simpl; try exact Ho.
-    apply andb_true_iff in Hhd. destruct Hhd as [_ Hm]. apply mem_In in Hm. rewrite (Hf g Hm), Ho. reflexivity.
+    unfold wobs. simpl. destruct (W g) eqn:Wg; [|exact Ho].
+    simpl in Hhd. apply andb_true_iff in Hhd. destruct Hhd as [_ Hm]. apply mem_In in Hm.
+    rewrite (Hf g Wg Hm). f_equal. exact Ho.
 Qed.
 
-Theorem solo_indep disc i p st st' : confined disc i p = true -> solo_result st p = solo_result st' p.
+Theorem solo_indep disc W i p st st' :
+  Forall (write_ok W) p -> confined disc W i p = true -> wobs W (solo_result st p) = wobs W (solo_result st' p).
 Proof.
-  intros H. unfold solo_result, view_of. apply (solo_indep_gen disc i p (mkAst [] [])); simpl; auto. intros g [].
+  intros Hw H. unfold solo_result, view_of. apply (solo_indep_gen disc W i p (mkAst [] [])); simpl; auto. intros g _ [].
 Qed.
 
-(* the headline statement: unbounded threads, unbounded steps, every schedule, any initial store *)
+(* the headline statement: unbounded threads, unbounded steps, every schedule, any initial store; W = the globals the
+   statement is about (reads of the others are not constrained and not compared) *)
+Theorem confined_serializable_W :
+  forall (disc : gvar -> prot) (W : gvar -> bool) (progs : tid -> prog),
+  (forall i, Forall (write_ok W) (progs i)) ->
+  (forall i, confined disc W i (progs i) = true) ->
+  forall (st0 : gvar -> val) (sched : list tid) (i : tid),
+  t_todo (c_thr (run sched (init st0 progs)) i) = [] ->
+  wobs W (t_obs (c_thr (run sched (init st0 progs)) i)) = wobs W (solo_result zero_store (progs i)).
+Proof.
+  intros disc W progs Hw Hc st0 sched i Hd.
+  rewrite (confined_serializable_st disc W progs st0 Hw Hc sched i Hd).
+  apply (solo_indep disc W i); [apply Hw | apply Hc].
+Qed.
+
+Lemma wobs_all o : wobs W_all o = o.
+Proof. unfold wobs, W_all. induction o; simpl; [reflexivity | f_equal; assumption]. Qed.
+
+Lemma write_ok_all p : Forall (write_ok W_all) p.
+Proof.
+  apply Forall_forall. intros s _. destruct s; simpl; auto. intros _ o o' H. rewrite !wobs_all in H. subst. reflexivity.
+Qed.
+
+(* all globals watched: every observation of a completed call is its solo observation *)
 Theorem confined_serializable :
   forall (disc : gvar -> prot) (progs : tid -> prog),
-  (forall i, confined disc i (progs i) = true) ->
+  (forall i, confined disc W_all i (progs i) = true) ->
   forall (st0 : gvar -> val) (sched : list tid) (i : tid),
   t_todo (c_thr (run sched (init st0 progs)) i) = [] ->
   t_obs (c_thr (run sched (init st0 progs)) i) = solo_result zero_store (progs i).
 Proof.
   intros disc progs Hc st0 sched i Hd.
-  rewrite (confined_serializable_st disc progs st0 Hc sched i Hd).
-  apply (solo_indep disc i). apply Hc.
+  pose proof (confined_serializable_W disc W_all progs (fun j => write_ok_all (progs j)) Hc st0 sched i Hd) as H.
+  rewrite !wobs_all in H. exact H.
 Qed.
 
 (* `solo_result` deserves its name: executed with every other thread idle, a call that completes observed exactly that *)
 Corollary solo_is_alone :
-  forall disc i p, confined disc i p = true ->
+  forall disc i p, confined disc W_all i p = true ->
   forall st0 sched, let progs := fun j => if Nat.eqb j i then p else [] in
   t_todo (c_thr (run sched (init st0 progs)) i) = [] ->
   t_obs (c_thr (run sched (init st0 progs)) i) = solo_result zero_store p.
 Proof.
   intros disc i p Hc st0 sched progs Hd.
-  assert (Hall : forall j, confined disc j (progs j) = true).
+  assert (Hall : forall j, confined disc W_all j (progs j) = true).
   { intros j. unfold progs. destruct (Nat.eqb j i) eqn:E; [apply Nat.eqb_eq in E; subst; exact Hc | reflexivity]. }
   pose proof (confined_serializable disc progs Hall st0 sched i Hd) as H.
   unfold progs in H at 2. rewrite Nat.eqb_refl in H. exact H.
